@@ -21,7 +21,7 @@ func init() { register(c04{}) }
 func (c04) ID() string            { return "C04" }
 func (c04) EvidenceLevel() string { return "exploration" }
 func (c04) Rule() string {
-	return "case = one stream (valid, or a valid stream cut at a byte) x a set of delivery/read schedules: source chunking {1 byte per call, random short reads, one split at k (every k for streams <= 600 bytes), data together with io.EOF} x transport {none, bufio of 16,17,64,328,329,4095,4096,4097,64K,1M, handed to NewReader or to Reset} x destination sizes {1,2,7,random,64K}. Every schedule must produce the same bytes and the same final error as the all-at-once baseline. Non-trivial: the stream decodes to at least one byte or is truncated; distinct by (stream digest, schedule)."
+	return "case = one stream (valid, or a valid stream cut at a byte) x a set of delivery/read schedules: source chunking {1 byte per call, random short reads, one split at k (every k for streams <= 600 bytes), data together with io.EOF} x transport {none, bufio of 16,17,64,328,329,4095,4096,4097,64K,1M, handed to NewReader or to Reset} x destination sizes {1,2,7,random,64K}. Every schedule must produce the same bytes and the same final error as the all-at-once baseline. Non-trivial: the stream decodes to at least one byte or is truncated; distinct by (stream digest, schedule). Every 14th case adds a truncation sweep: word salad whose separators are 0x00/0x01/0xff, sixteen cut points, each read whole, byte by byte and in random chunks."
 }
 func (c04) NumCases(tier string) int {
 	if tier == "thorough" {
@@ -213,6 +213,46 @@ func (c04) Run(c *mon.Ctx, i int) {
 		desc["stack"] = base.stack
 		c.Violate("panic|"+mon.PanicSite(base.stack), fmt.Sprintf("baseline read panicked: %v", base.panicV), desc)
 		return
+	}
+	if i%14 == 6 {
+		// truncation sweep over word salad whose separators are the byte values
+		// 0x00, 0x01 and 0xff (values a "none" marker could be confused with):
+		// sixteen cut points, each read whole, byte by byte and in random chunks
+		n := r.Range(3000, 40000)
+		d := wordSaladAlpha(r, n, r.Pick(3, 4, 5))
+		for j := range d {
+			switch d[j] {
+			case ' ', '.':
+				d[j] = 0x00
+			case ',':
+				d[j] = 0x01
+			case ';':
+				d[j] = 0xff
+			}
+		}
+		v, err := encodeWith(impl.Stdlib, Setting{Wrapper: "flate", Level: r.Pick(1, 6, 6, 9)}, d, nil)
+		if err != nil {
+			panic(err)
+		}
+		for t := 0; t < 16 && len(v.S) > 2; t++ {
+			cut := v.S[:r.Range(1, len(v.S)-1)]
+			b0 := c04Run(c.API, r, cut, c04Sched{chunk: "whole", dst: "64k"}, len(d)+1<<20)
+			for _, sc := range []c04Sched{{chunk: "onebyte", dst: "64k"}, {chunk: "random", bufio: 64, dst: "random"}, {chunk: "whole", bufio: 4096, viaRst: true, dst: "7"}} {
+				rr := c04Run(c.API, r, cut, sc, len(d)+1<<20)
+				c.Eval(1)
+				if rr.panicV != nil || b0.panicV != nil || !bytes.Equal(rr.out, b0.out) || impl.ErrClass(rr.err) != impl.ErrClass(b0.err) {
+					d2 := map[string]interface{}{"stream": "zero-separator word salad " + v.Desc, "stream_sha": mon.Sha(cut), "stream_len": len(cut), "truncated": true, "schedule": sc.String(),
+						"baseline": fmt.Sprintf("%d bytes, err=%v", len(b0.out), b0.err), "got": fmt.Sprintf("%d bytes, err=%v", len(rr.out), rr.err)}
+					if len(cut) <= 1500 {
+						d2["stream_hex"] = mon.Hex(cut, 1500)
+					}
+					c.Violate(fmt.Sprintf("bytes-differ|chunk=%s|bufio=%s|reset=%v", sc.chunk, bufClass(sc.bufio), sc.viaRst), fmt.Sprintf("truncated stream (%d of %d bytes): schedule %s yields %d bytes then %v, whole delivery %d bytes then %v (first difference at %d)", len(cut), len(v.S), sc, len(rr.out), rr.err, len(b0.out), b0.err, firstDiff(rr.out, b0.out)), d2)
+					return
+				}
+			}
+			c.Count("truncation-sweep-cuts-agreeing", 1)
+		}
+		c.Count("truncation-sweep-cases", 1)
 	}
 	var scheds []c04Sched
 	if len(in) <= 700 {
